@@ -150,6 +150,10 @@ type world struct {
 	subs    []subInfo
 	out     *vio.Out
 	running atomic.Int64
+	// the call with a big submission in progress, and its reader's Recv count when the request was handed over
+	slowCall   *call
+	slowBefore int64
+	window     [2]int // big submissions: [stimuli issued while the submission was still being verified, issued after]
 }
 
 type subInfo struct{ call, sig string }
@@ -260,13 +264,20 @@ type stim struct {
 	Sig string `json:"sig"`
 	W   bool   `json:"w"`
 	V   string `json:"v"` // reg variant
+	Big bool   `json:"big"` // send: a message so large that its signature verification outlasts the next stimuli; not waited for
 }
 
-func (w *world) buildMsg(cn string, n uint64, sig string) *signaling.SessionMsg {
+// bigBody is the payload size of a "big" submission (verification takes ~1 ms per MB).
+var bigBody = 96 << 20
+
+func (w *world) buildMsg(cn string, n uint64, sig string, big bool) *signaling.SessionMsg {
 	d := callDefs[cn]
 	src := w.peers[d.src]
 	body := []byte("msg-" + cn + "-" + string(rune('0'+len(w.msgs))))
 	body = append(body, byte(len(w.msgs)), byte(len(w.msgs)>>8))
+	if big {
+		body = append(body, make([]byte, bigBody)...)
+	}
 	signer := vio.Key(src.name)
 	var m *signaling.SessionMsg
 	var err error
@@ -369,7 +380,10 @@ func (w *world) exec(s stim) map[string]any {
 		req := &signaling.SessionRequest{SessionSeqno: st}
 		switch s.A {
 		case "send":
-			m := w.buildMsg(s.C, s.N, s.Sig)
+			m := w.buildMsg(s.C, s.N, s.Sig, s.Big)
+			if s.Big {
+				ev["big"] = true
+			}
 			b, _ := m.MarshalVT()
 			w.msgs = append(w.msgs, b)
 			w.subs = append(w.subs, subInfo{s.C, s.Sig})
@@ -391,6 +405,12 @@ func (w *world) exec(s stim) map[string]any {
 			return nil
 		case <-time.After(20 * time.Second):
 			vio.Fatal("request on %s not consumed", s.C)
+		}
+		if s.Big {
+			// not waited for: the request's critical section runs when the verification of the signature is done;
+			// the next stimuli are issued meanwhile ("sync" / the next checkpoint waits for it)
+			w.slowCall, w.slowBefore = c, before
+			break
 		}
 		// the handler is done when the read goroutine asks for the next request or the call returned; if the
 		// call's write loop is parked in a held Send and the handler failed, neither happens: fall back to quiescence
@@ -612,9 +632,24 @@ func main() {
 		w.checkpoint()
 		pendingQ := false
 		for _, s := range beh {
+			if s.A == "sync" {
+				// wait until the pending big submission has been handled and the relay is quiescent again
+				w.checkpoint()
+				w.slowCall, pendingQ = nil, false
+				continue
+			}
 			ev := w.exec(s)
 			if ev == nil {
 				continue
+			}
+			if sc := w.slowCall; sc != nil && !s.Big {
+				// was the big submission still in progress when this stimulus had taken effect?
+				if sc.ss.recvEntered.Load() == w.slowBefore {
+					w.window[0]++
+					ev["during"] = true
+				} else {
+					w.window[1]++
+				}
 			}
 			out.Emit(ev)
 			pendingQ = true
